@@ -776,11 +776,28 @@ def lin_check(it, r):
                        "inv": h["inv"], "ret": h["ret"], "ok": h["ok"]} for i, h in enumerate(r["history"])],
             "final": r["final"]}
     txt = open(os.path.join(core.SPEC, "Lin.cfg")).read().replace("RS = 20", "RS = %d" % it["cfg"]["rs"])
-    out, st = core.tlc("Lin.tla", "Lin_x.cfg", workers=2, timeout=900, heap="4g",
-                       files={"history.json": json.dumps(hist), "Lin_x.cfg": txt})
-    if st["error"]:
-        raise Infra("TLC failed on Lin.tla for %s: %s\n%s" % (it["id"], st["error"], out[-2500:]))
-    return st["violation"] == "NotAccepted", st
+    # cheap first: the order in which the calls returned (then: were invoked) is almost always a
+    # linearization, because every method runs under one lock; only if neither is accepted
+    # does TLC search all orders compatible with real time
+    states = 0
+    for key in ("ret", "inv", None):
+        h = dict(hist)
+        h["hint"] = [c["id"] for c in sorted(hist["calls"], key=lambda c: c[key])] if key else []
+        try:
+            out, st = core.tlc("Lin.tla", "Lin_x.cfg", workers=2, timeout=(120 if key else 1500), heap="4g",
+                               files={"history.json": json.dumps(h), "Lin_x.cfg": txt})
+        except Infra:
+            if key:
+                continue
+            raise Infra("linearizability search for %s (%d calls) did not finish" % (it["id"], len(hist["calls"])))
+        if st["error"]:
+            raise Infra("TLC failed on Lin.tla for %s: %s\n%s" % (it["id"], st["error"], out[-2500:]))
+        states += st["distinct"] or st["generated"]
+        if st["violation"] == "NotAccepted":
+            st["distinct"] = states
+            return True, st
+    st["distinct"] = states
+    return False, st
 
 
 def run_c11(tier, seed, t0, replay_item=None):
@@ -798,7 +815,7 @@ def run_c11(tier, seed, t0, replay_item=None):
         n = 28 if tier == "quick" else 800
         items = []
         for i in range(n):
-            ncl = rng.choice([2, 2, 3, 4] if tier == "quick" else [2, 3, 4, 6, 8])
+            ncl = rng.choice([2, 2, 3, 4] if tier == "quick" else [2, 3, 4, 5, 6, 8])
             ncalls = rng.choice([3, 4, 5]) if ncl <= 4 else 3
             if i % 5 == 3:
                 setup, clients = conc_hot_programs(rng, "rename-vs-stat")
